@@ -90,6 +90,9 @@ impl Tape {
         let i = self.below(items.len() as u32) as usize;
         &items[i]
     }
+    pub fn pick_s<'a>(&mut self, items: &[&'a str]) -> &'a str {
+        items[self.below(items.len() as u32) as usize]
+    }
     pub fn index(&mut self, len: usize) -> usize {
         self.below(len as u32) as usize
     }
